@@ -54,7 +54,7 @@ static void * observer(void * a) {
 static void run(int tier, int prog) {
   build(); cur = &P[tier][prog];
   mv_start(cur->W);
-  myth_felock_init(&fe, 0);
+  h_felock_init(&fe, prog & 1);
   myth_thread_t th[8]; int nt = 0;
   if (cur->readff) {
     for (int i = 0; i < cur->nc; i++) th[nt++] = myth_create(ff_reader, 0);
